@@ -266,6 +266,19 @@ P_C17_WholeVersion ==
   Is("end") => \A n \in DOMAIN Last.recv.final :
      Has(Last.versions, n) => Last.recv.final[n] \in Set(Last.versions[n])
 
+---- \* C01 on whole transfers (the receiver alone is Stage.tla / StageTrace.tla)
+\* the contents the source file of that name has had so far
+EnvHashes(n) == { H[k].hash : k \in { k \in Idx("env") : H[k].name = n /\ H[k].what = "write" } }
+HasRecv == H # <<>> /\ Has(Last, "recv")
+\* whatever is in the final directory is, byte for byte, one version the source had
+P_C01_FinalIsVersion ==
+  HasRecv => \A n \in DOMAIN Last.recv.final : Last.recv.final[n] \in EnvHashes(n)
+\* and a content the receive log names for it (the record is written before the move, so the final
+\* directory may still hold the previous logged version for a moment)
+LoggedHashes(r, n) == { r.logged[i][2] : i \in { i \in DOMAIN r.logged : r.logged[i][1] = n } }
+P_C01_LoggedHash ==
+  HasRecv => \A n \in DOMAIN Last.recv.final : Last.recv.final[n] \in LoggedHashes(Last.recv, n)
+
 ---- \* C03 (no stuck state at the end of a run whose faults were finite)
 \* every eligible file that still exists unchanged was delivered in its latest version
 Latest(n) == Last.versions[n][Len(Last.versions[n])]
